@@ -108,6 +108,10 @@ def cross_jobs(pid, tier, profile):
           {"name": pid + ".x.pair.token", "flavour": "native", "args": ["pair"] + (["nshards=4"] if tier == "quick" else ["full", "nshards=8"]), "shards": T(tier, 4, 8), "threads": 2, "timeout": 2400}]
     if profile != "c12":
         js.append(core_token(pid + ".x.c12.token", "c12", T(tier, 1200, 30000), shards=2))
+    # the crate's RefCnt impls for Rc / Option<Rc> (fourth round: miscounts there are invisible to every multi-threaded workload): the sequential
+    # reference-model programs over a forwarding wrapper, under all three strategies; natively (counts, identities) and under ASan (lifetime)
+    js.append({"name": pid + ".x.rcseq", "flavour": "native", "args": ["seq", "val=rc", "progs=%d" % T(tier, 2000, 60000)], "shards": 1, "threads": 1, "timeout": 1200})
+    js.append({"name": pid + ".x.rcseq.asan", "flavour": "asan", "args": ["seq", "val=rc", "progs=%d" % T(tier, 600, 20000)], "shards": 1, "threads": 1, "timeout": 1200})
     return js
 
 
@@ -333,6 +337,10 @@ def plan_c14():
             {"name": "C14.seq.tp.reuse", "flavour": "native", "args": ["seq", "val=tp", "alloc=reuse", "progs=%d" % T(tier, 5000, 200000)], "shards": 4, "threads": 1, "timeout": 1800},
             {"name": "C14.seq.arc.asan", "flavour": "asan", "args": ["seq", "val=arc", "progs=%d" % T(tier, 3000, 100000)], "shards": 4, "threads": 1, "timeout": 1800},
             {"name": "C14.seq.miri", "flavour": "miri", "args": ["seq", "val=tp", "alloc=real", "progs=%d" % T(tier, 6, 12), "len=40"], "miri_seeds": T(tier, 8, 96), "timeout": 900},
+            # the Rc kinds (the crate's RefCnt impls for Rc / Option<Rc>) through a forwarding wrapper
+            {"name": "C14.seq.rc", "flavour": "native", "args": ["seq", "val=rc", "progs=%d" % T(tier, 5000, 200000)], "shards": 4, "threads": 1, "timeout": 1800},
+            {"name": "C14.seq.rc.asan", "flavour": "asan", "args": ["seq", "val=rc", "progs=%d" % T(tier, 1500, 50000)], "shards": 2, "threads": 1, "timeout": 1800},
+            {"name": "C14.seq.rc.miri", "flavour": "miri", "args": ["seq", "val=rc", "progs=%d" % T(tier, 4, 8), "len=40"], "miri_seeds": T(tier, 4, 48), "timeout": 900},
         ]
 
     def ev(merged, results):
@@ -343,8 +351,8 @@ def plan_c14():
         "level": "exploration",
         "jobs": jobs,
         "rule": ("One evaluation = one seeded random single-threaded program (10-80 API calls over <= 3 containers, a pool of 6 values plus None, <= 12 live guards; "
-                 "new / load / load_full / Guard::into_inner / Guard::from_inner / guard drop in any order / store / swap / compare_and_swap with every form of "
-                 "current / rcu incl. re-entrant store / into_inner / drop) run under one strategy and compared with the plain-variable model after every step; "
+                 "every constructor (new / from / with_strategy / into) / load / load_full / Guard::into_inner / Guard::from_inner / Guard::from / guard drop in any order / store / swap / "
+                 "compare_and_swap with every form of current / rcu incl. re-entrant store and the identity closure / Debug formatting / into_inner / drop; values Tp, Option<Arc>, Option<Rc>) run under one strategy and compared with the plain-variable model after every step; "
                  "each program is run under all three strategies. Non-trivial = at least 10 steps executed; distinct = distinct (result-sequence hash, length)."),
         "evidence": ev,
         "assumptions": ["The model is a 60-line plain-variable interpreter; counts are compared through the conservation law at every step (every step of a sequential program is a quiescent point)."],
